@@ -221,9 +221,9 @@ def build_body_unit(u):
         ch.install_registry(False)
         w = World(vals)
         yp = ch.new_engine()
-        yp.load_script_from_string(code, overwrite=False)
+        ch.load(yp, code)
         if code2 is not None:
-            yp.load_script_from_string(code2, overwrite=False)
+            ch.load(yp, code2)
         for nm in LEAF_NAMES + CONTEXT:
             yp.register_function(nm, (lambda nm: (lambda: w.leaf(nm)))(nm))
         got = []
